@@ -465,10 +465,11 @@ def replay(path):
         print('case', case['key'], '(' + kind + ')')
         if kind.startswith('cli:'):
             import cli
-            c = cli.Cli(ctx.sc, ctx.wire)
+            pk = tuple(case.get('pkgs', ('p', 'q')))
+            c = cli.Cli(ctx.sc, ctx.wire, pk)
             c.references()
             evs = c.run_walk(1, case['history'], case['prefixes'])
-            rej, _ = cli.validate(ctx.sc, evs, tuple(case['modes']), case['prefixes'])
+            rej, _ = cli.validate(ctx.sc, evs, tuple(case['modes']), case['prefixes'], pk)
             for e in evs:
                 print('  step', e['step'], e['cmd'], json.dumps(e['args']), 'exit', e['exit'], 'expected', e.get('expected_exit'), json.dumps(e['disk']), e['othermod'])
             if rej:
